@@ -586,16 +586,16 @@ theorem below_pred (H : Hier) (k : Key) (cur m : Meth) :
   cases h1 : m.id == cur.id <;> cases h2 : applicableTo H k m <;> cases h3 : beats H k m cur <;>
     simp_all
 
-theorem next_partial_core (cfg : Cfg) (ms : List Meth) (wf : cfg.H.WF) (anti : cfg.H.Antisym)
+theorem next_partial_core_all (cfg : Cfg) (ms : List Meth) (wf : cfg.H.WF) (anti : cfg.H.Antisym)
     (hd : DistinctHandlers ms) (hst : staticTable ms = true)
-    (k : Key) (hkc : ∀ e ∈ k, e.2.isCls = true) (hne : k ≠ [])
+    (k : Key) (hkc : ∀ e ∈ k, e.2.isCls = true)
     (hcc : candComparable cfg.H ms k = true) (htie : sigTieOK cfg.H ms k = true)
     (cur : Meth) (hcur : cur ∈ applicable cfg.H ms k) (hcode : cur.hasCode = true)
     (hsa : strictAbove cfg.H ms k cur = true) (hca : codesAbove cfg.H ms k cur = true) :
     specAgrees (pureNext (plan cfg ms) cur.code k) (nextSpec cfg.H ms cur.code k) := by
   have hid := hd.ids
   have slots : ∀ e ∈ k, SlotOK cfg ms e := fun e he => slotOK_of_cls cfg ms wf anti hst e (hkc e he)
-  obtain ⟨cs, hcs, ok⟩ := candidates_ok cfg ms hid k hne slots
+  obtain ⟨cs, hcs, ok⟩ := candidates_ok_all cfg ms hid k slots
   have X : Ctx cfg ms k cs := ⟨wf, hid, slots, ok, hcc, htie⟩
   have R := rankHyp X
   have hplan : plan cfg ms k =
@@ -752,5 +752,14 @@ theorem next_partial_core (cfg : Cfg) (ms : List Meth) (wf : cfg.H.WF) (anti : c
       apply hrest_nb c hc
       rw [beats_iff X c ccur hcc' hccur, hmcur]
       exact hb
+
+theorem next_partial_core (cfg : Cfg) (ms : List Meth) (wf : cfg.H.WF) (anti : cfg.H.Antisym)
+    (hd : DistinctHandlers ms) (hst : staticTable ms = true)
+    (k : Key) (hkc : ∀ e ∈ k, e.2.isCls = true) (_hne : k ≠ [])
+    (hcc : candComparable cfg.H ms k = true) (htie : sigTieOK cfg.H ms k = true)
+    (cur : Meth) (hcur : cur ∈ applicable cfg.H ms k) (hcode : cur.hasCode = true)
+    (hsa : strictAbove cfg.H ms k cur = true) (hca : codesAbove cfg.H ms k cur = true) :
+    specAgrees (pureNext (plan cfg ms) cur.code k) (nextSpec cfg.H ms cur.code k) :=
+  next_partial_core_all cfg ms wf anti hd hst k hkc hcc htie cur hcur hcode hsa hca
 
 end Ovld
